@@ -1,7 +1,9 @@
-"""C13 — run() is idempotent; monotone re-runs equal a fresh run."""
+"""C13 — run() is idempotent; monotone re-runs equal a fresh run.
+
+Two halves: plain relations (Engine/Rerun.v; below) and lattice relations (LatEngine/LatRerun.v; gen/c13_lat.py)."""
 import json
 
-from .. import engine_tie, gen_dl, lib, prog
+from .. import c13_lat, engine_tie, gen_dl, lib, prog
 
 PROP = "C13"
 PROP_FILE = "Props/C13.v"
@@ -25,11 +27,9 @@ def gen_cases(tier, seed):
     return cases
 
 
-def known_class(m):
-    return None
-
-
 def tie(tier, seed, replay):
+    # lattice half first: its corpus (the duplicate-key finding) runs before everything else
+    lat = c13_lat.tie_part(tier, seed)
     cases = gen_cases(tier, seed)
     results = []
     for i in range(0, len(cases), 96):
@@ -81,10 +81,10 @@ def tie(tier, seed, replay):
                                      what="parallel history: relation %s after run #%d differs from the specification" % (bad[0], j + 1)))
                     break
     sample = [dict(program=r["text"], script=r["case"]["scripts"][-1], impl=[{k: v[1][:5] for k, v in prog.canon_snap(s).items()} for s in r["impl"][-1]["snaps"]] if r["impl"] and "snaps" in r["impl"][-1] else r["impl"]) for r in results[:2]]
-    return dict(evaluations=sum(len(r["case"]["scripts"]) for r in results), distinct_nontrivial=len(distinct),
-                rule="random programs (2/3 positive C01-style, 1/3 stratified with aggregates / negation) x histories run;run | run;push;run;push;run | run(empty);push;run;run with facts pushed into any relation incl. derived ones; every snapshot compared; non-trivial = history with at least two runs; distinct = distinct (program, history)",
-                samples=sample, distribution=dict(programs=len(results), history_shapes=hist, with_aggregates=sum(1 for r in results if r["case"]["agg"])),
-                mismatches=mism,
-                trusted_base=["FRONT hook + gen/dl.py plan translation; gen/prog.py generated crates", "Engine/Rerun.v models the program value between runs (stored indices kept, rows appended)"],
-                assumptions=["facts pushed between runs are appended to the public Vec fields, as a user would"],
-                extra=dict(cases_skipped_model_too_slow=nskipped, parallel_histories=npar))
+    return dict(evaluations=sum(len(r["case"]["scripts"]) for r in results) + lat["evaluations"], distinct_nontrivial=len(distinct) + lat["distinct"],
+                rule="PLAIN HALF: random programs (2/3 positive C01-style, 1/3 stratified with aggregates / negation) x histories run;run | run;push;run;push;run | run(empty);push;run;run with facts pushed into any relation incl. derived ones; every snapshot compared; non-trivial = history with at least two runs; distinct = distinct (program, history).  " + lat["rule"],
+                samples=sample, distribution=dict(programs=len(results), history_shapes=hist, with_aggregates=sum(1 for r in results if r["case"]["agg"]), **lat["distribution"]),
+                mismatches=lat["mismatches"] + mism,
+                trusted_base=["FRONT hook + gen/dl.py plan translation; gen/prog.py generated crates", "Engine/Rerun.v models the program value between runs (stored indices kept, rows appended)"] + lat["trusted_base"],
+                assumptions=["facts pushed between runs are appended to the public Vec fields, as a user would"] + lat["assumptions"],
+                extra=dict(cases_skipped_model_too_slow=nskipped, parallel_histories=npar, **lat["extra"]))
